@@ -76,6 +76,8 @@ fn judge(ctx: &Ctx, c: &Case, sets: &[(&'static str, Vec<Rule>)], st: &mut Stats
         }
     };
     st.observe(&(&key, &out));
+    // C01 cross-feed: every flow output must be well-formed in its format
+    if let Some(why) = zvharness::refmodel::malformed(c.fmt, &out) { ctx.violation("flow_output_malformed", key.clone(), case.clone(), format!("{out:?}: {why}")); }
     let (_, xyz) = TAGS[c.tag];
     let dirty = match c.dirty_flag { 1 => true, _ => false };
     let distance = if clean_flag { 0 } else { c.distance.unwrap_or(0) };
